@@ -140,7 +140,15 @@ class Runtime(object):
         self.order.append(('b', site))
         return Tag(site, v)
 
+    def _unwinding(self):
+        """an exception other than the generated ValueError/KeyError is propagating (we are in a finally block on
+        the way out): in abort mode what happens now is not part of a normal execution"""
+        et = sys.exc_info()[0]
+        if et is not None and self.mode == 'abort' and not issubclass(et, (ValueError, KeyError, NameError)):
+            self.dead = True
+
     def R(self, rid, thunk):
+        self._unwinding()
         try:
             v = thunk()
         except NameError:
@@ -158,6 +166,7 @@ class Runtime(object):
         return v
 
     def RC(self, rid, name, ns, thunk):
+        self._unwinding()
         if name in ns:
             v = ns[name]
             if not self.dead:
